@@ -28,6 +28,9 @@ pub struct Unit {
     /// sub-commands wrapped in `.hide()`: they work, their names are never offered
     #[serde(default)]
     pub hidden_cmds: Vec<String>,
+    /// completers sit above optional / many / fallback instead of on the primitive
+    #[serde(default)]
+    pub completer_outer: bool,
 }
 
 fn decorate(p: &mut P, decor: u8, hidden_cmds: &[String]) {
@@ -59,8 +62,21 @@ fn decorate(p: &mut P, decor: u8, hidden_cmds: &[String]) {
     }
 }
 
-/// wrap selected argument leaves in `.complete(echo)`
-fn add_completers(p: &mut P, which: &[String]) {
+/// wrap selected argument leaves in `.complete(echo)`; with `outer` the completer is attached
+/// above the item's optional / many / fallback wrapper (the placement the documentation
+/// recommends) instead of directly on the primitive
+fn add_completers(p: &mut P, which: &[String], outer: bool) {
+    if outer {
+        if let P::Optional(x, _) | P::Many(x, _) | P::Fallback(x, _, _) = p {
+            if let P::Arg { names, .. } = &**x {
+                if which.contains(&names.preferred()) {
+                    let me = p.clone();
+                    *p = P::Complete(me.bx(), CompK::Echo2 { descr: false }, None);
+                    return;
+                }
+            }
+        }
+    }
     match p {
         P::Arg { names, .. } => {
             if which.contains(&names.preferred()) {
@@ -68,16 +84,16 @@ fn add_completers(p: &mut P, which: &[String]) {
                 *p = P::Complete(inner.bx(), CompK::Echo2 { descr: false }, None);
             }
         }
-        P::Cmd { inner, .. } => add_completers(&mut inner.p, which),
-        P::Seq(v) | P::Alt(v) | P::Choice(v) | P::Adj(v) => v.iter_mut().for_each(|x| add_completers(x, which)),
-        P::Optional(x, _) | P::Many(x, _) | P::Some_(x, _) | P::Collect(x, _) | P::Count(x) | P::Last(x) | P::Fallback(x, _, _) | P::FallbackWith(x, _) | P::Guard(x, _) | P::Parse(x, _) | P::Map(x, _) | P::Hide(x) | P::HideUsage(x) | P::CustomUsage(x, _) | P::GroupHelp(x, _) | P::WithGroupHelp(x, _) => add_completers(x, which),
+        P::Cmd { inner, .. } => add_completers(&mut inner.p, which, outer),
+        P::Seq(v) | P::Alt(v) | P::Choice(v) | P::Adj(v) => v.iter_mut().for_each(|x| add_completers(x, which, outer)),
+        P::Optional(x, _) | P::Many(x, _) | P::Some_(x, _) | P::Collect(x, _) | P::Count(x) | P::Last(x) | P::Fallback(x, _, _) | P::FallbackWith(x, _) | P::Guard(x, _) | P::Parse(x, _) | P::Map(x, _) | P::Hide(x) | P::HideUsage(x) | P::CustomUsage(x, _) | P::GroupHelp(x, _) | P::WithGroupHelp(x, _) => add_completers(x, which, outer),
         _ => {}
     }
 }
 
 pub fn build_unit(u: &Unit) -> Opts {
     let mut o = u.level.to_opts();
-    add_completers(&mut o.p, &u.completers);
+    add_completers(&mut o.p, &u.completers, u.completer_outer);
     if u.decor != 0 || !u.hidden_cmds.is_empty() {
         decorate(&mut o.p, u.decor, &u.hidden_cmds);
     }
@@ -474,14 +490,14 @@ impl Check for C14 {
                 Tail::Cmds { cmds, .. } if j % 5 == 0 => vec![cmds[(j / 5) % cmds.len()].name.clone()],
                 _ => vec![],
             };
-            out.push(serde_json::to_value(Unit { level: l, len: tier.pick(2, 3), completers, fallback_with: j % 4 == 1, decor: (j % 3) as u8, hidden_cmds }).unwrap());
+            out.push(serde_json::to_value(Unit { level: l, len: tier.pick(2, 3), completers, fallback_with: j % 4 == 1, decor: if j % 4 == 2 { 0 } else { (j % 3) as u8 }, hidden_cmds, completer_outer: j % 4 == 2 }).unwrap());
         }
         // non-ASCII short and long names
         for k1 in [Kind::Switch, Kind::ArgOpt, Kind::Count] {
             for k2 in [Kind::ArgReq, Kind::ReqFlag] {
                 let a = Named { names: Names::both('ä', "änderung"), kind: k1, hidden: false, ty: Ty::Os, adjacent: false, guarded: false };
                 let b = Named { names: Names::short('ß'), kind: k2, hidden: false, ty: Ty::Os, adjacent: false, guarded: false };
-                out.push(serde_json::to_value(Unit { level: fam::leaf(vec![a, b], Tail::None), len: tier.pick(2, 3), completers: vec![], fallback_with: false, decor: 0, hidden_cmds: vec![] }).unwrap());
+                out.push(serde_json::to_value(Unit { level: fam::leaf(vec![a, b], Tail::None), len: tier.pick(2, 3), completers: vec![], fallback_with: false, decor: 0, hidden_cmds: vec![], completer_outer: false }).unwrap());
             }
         }
         out
@@ -498,6 +514,8 @@ impl Check for C14 {
             let s = t.lossy();
             s != "--zz" && s != "w" && !(s.starts_with('-') && !s.starts_with("--") && s.len() > 2)
         }).collect();
+        // a word that is not valid UTF-8 (a file name) among the already typed items
+        alpha.push(Tok(vec![b'f', 0xff, 0xfe]));
         alpha.sort();
         let mut typed: Vec<Tok> = TYPED.iter().map(|s| Tok::s(s)).collect();
         // typed words derived from the definition: every prefix of every visible name
@@ -548,7 +566,7 @@ impl Check for C14 {
         }
     }
     fn rule(&self) -> String {
-        "definitions = conventional levels (<=2 named items of all 10 kinds, naming styles incl. aliases; tails none / positionals / command trees of depth 3 with aliases, optional and defaulted choices); every third definition hides its first item, every fourth writes its defaults with fallback_with, every fifth wraps one of its sub-commands in hide(), repeated items are written many() / some(msg).optional() / many().catch() in rotation (optional items with and without catch()), a few use non-ASCII names, every second attaches an echoing completer (input+\"1\", input+\"2\") to every argument; inputs = every vector of the token tree as the already typed part x every typed last word from {empty, -, --, every prefix of every long name, every short name, --name=, --name=pre, command prefixes, plain words}; revision 0 through set_comp and (for short lines) through the --bpaf-complete-rev=0 marker; (a) the outcome is completion output for every line; (b) every candidate is the preferred spelling of a visible matching name of the active or an enclosing level, a value of the completer of the item being typed, or a metavariable placeholder - never a hidden item or a name below a command not entered; (c) on a fresh prefix every visible name of the active level that extends it and is not already given (single-use) is offered, commands when no word precedes, completer values for the item being typed; the active level / given set / pending value come from a reference scan of the typed part; right of `--` no option or command name may be offered whatever was typed; lines the scan cannot classify (unknown names, clusters, separator) are only held to (a); state = (definition, line)".into()
+        "definitions = conventional levels (<=2 named items of all 10 kinds, naming styles incl. aliases; tails none / positionals / command trees of depth 3 with aliases, optional and defaulted choices); every third definition hides its first item, every fourth writes its defaults with fallback_with, every fifth wraps one of its sub-commands in hide(), repeated items are written many() / some(msg).optional() / many().catch() in rotation (optional items with and without catch()), a few use non-ASCII names, every second attaches an echoing completer (input+\"1\", input+\"2\") to every argument - half of them on the primitive, half above its optional / many / fallback wrapper; inputs = every vector of the token tree (incl. a non-UTF-8 word) as the already typed part x every typed last word from {empty, -, --, every prefix of every long name, every short name, --name=, --name=pre, command prefixes, plain words}; revision 0 through set_comp and (for short lines) through the --bpaf-complete-rev=0 marker; (a) the outcome is completion output for every line; (b) every candidate is the preferred spelling of a visible matching name of the active or an enclosing level, a value of the completer of the item being typed, or a metavariable placeholder - never a hidden item or a name below a command not entered; (c) on a fresh prefix every visible name of the active level that extends it and is not already given (single-use) is offered, commands when no word precedes, completer values for the item being typed; the active level / given set / pending value come from a reference scan of the typed part; right of `--` no option or command name may be offered whatever was typed; lines the scan cannot classify (unknown names, clusters, separator) are only held to (a); state = (definition, line)".into()
     }
     fn bounds(&self, tier: Tier) -> Value {
         json!({"typed_part_length": tier.pick(2, 3), "typed_words": "18 fixed + all prefixes of all names"})
